@@ -714,7 +714,7 @@ fn replace_first(r: &Re, target: &Re, with: &Re, done: &mut bool) -> Re {
 
 fn parser_trees(size: usize) -> Vec<Re> {
     use refmodel::re::*;
-    let atoms = vec![ch('a'), st("ab"), set(&[('a', 'b')]), Re::Any, var("v"), builtin("ascii_digit"), Re::Eoi];
+    let atoms = vec![ch('a'), st("ab"), set(&[('a', 'b')]), Re::Any, var("v"), builtin("ascii_digit"), Re::Eoi, set(&[('x', 'x'), ('c', 'e'), ('\'', '\''), ('0', '9'), ('-', '-')])];
     let mut memo: Vec<Vec<Re>> = vec![vec![], atoms];
     for s in 2..=size {
         let mut v = vec![];
